@@ -177,6 +177,12 @@ func genC19(t *rapid.T) *Case {
 				if g.chance(20, "twframe") {
 					early += ` <iframe src="http://evil.example/widget/` + g.tokp("fr") + `"></iframe>`
 				}
+				// several removable nodes next to each other (the widget script, then frames)
+				if g.chance(15, "twframes2") {
+					early += g.pick("twframes2k", ` <script async src="https://platform.twitter.com/widgets.js"></script><iframe src="http://evil.example/w2/`+g.tokp("fr")+`"></iframe>`,
+						` <iframe src="http://evil.example/w3/`+g.tokp("fr")+`"></iframe><iframe src="http://evil.example/w4/`+g.tokp("fr")+`"></iframe>`,
+						` <object data="http://evil.example/o/`+g.tokp("fr")+`"></object><iframe src="http://evil.example/w5/`+g.tokp("fr")+`"></iframe>`)
+				}
 				// text that looks like markup, inside a raw-text-named element of foreign content: it is
 				// text in the page and must not come back as a live frame or a forged placeholder when
 				// the distiller serialises its output and parses it again
